@@ -44,6 +44,7 @@ def plan(tier, seed):
 	tasks.append(('t_foreign', dict(seed=seed)))
 	for comp in ('none', 'gzip-default', 'lzf'):
 		tasks.append(('t_many', dict(comp=comp, tier=tier)))
+		tasks.append(('t_bigsig', dict(comp=comp, tier=tier)))
 	return tasks
 
 
@@ -315,6 +316,67 @@ def t_many(comp, tier):
 	return sh
 
 
+def t_bigsig(comp, tier):
+	"""Single signatures around and above power-of-two element counts (2^16, 2^17, 2^18 = every 9-mer; thorough also 2^20, 2^22) at the
+	first / middle / last position among small, empty and other big signatures, all four container kinds."""
+	from gambit.kmers import KmerSpec
+	from gambit.sigs.base import SignatureArray, SignatureList, AnnotatedSignatures, SignaturesMeta, dump_signatures, load_signatures
+	sh = Shard()
+	bigs = [65535, 65536, 65537, 100000, 131072, 131073, 262144] + ([1 << 20, (1 << 20) + 1, 1 << 22] if tier != 'quick' else [])
+	small = [np.array([3, 77, 4000], dtype='u4'), np.array([], dtype='u4'), np.array([5], dtype='u4')]
+	with fixtures.workdir('c12b') as d:
+		for B in bigs:
+			k = 9 if B <= 4 ** 9 else 11
+			ks = KmerSpec(k, 'ATGAC')
+			step = max(1, (4 ** k) // B)
+			big1 = np.arange(0, B * step, step, dtype='u4')[:B]
+			big2 = (np.arange(B, dtype='u4') * step + (step - 1 if step > 1 else 0))[:B]
+			patterns = dict(first=[big1, small[0], small[2]], middle=[small[0], big1, small[2]], last=[small[0], small[2], big1],
+			                two=[big1, big2, small[0]], then_empty=[small[2], big1, small[1], small[0]], alone=[big1], sandwich=[big1, small[0], big2, small[2]])
+			for pname, arrs in patterns.items():
+				for container in ('array', 'list', 'annot-list', 'annot-array'):
+					base = (SignatureArray if 'array' in container else SignatureList)(arrs, ks, dtype=np.dtype('u4'))
+					ids = [f'id{i}' for i in range(len(arrs))]
+					obj = AnnotatedSignatures(base, ids, SignaturesMeta(id='big')) if container.startswith('annot') else base
+					p = os.path.join(d, 'big.gs')
+					case = dict(bigsig=True, big=B, k=k, pattern=pname, container=container, comp=comp)
+					sh.evals += 1
+					try:
+						dump_signatures(p, obj, **COMP[comp])
+						loaded = load_signatures(p)
+					except Exception as ex:
+						sh.violation('bigsig-write-or-load-failed', case, 'round trip', f'{type(ex).__name__}: {ex}'[:200])
+						continue
+					try:
+						bad = None
+						if len(loaded) != len(arrs) or loaded.kmerspec != ks:
+							bad = ('length/kmerspec', len(loaded))
+						else:
+							for i, a in enumerate(arrs):
+								g = np.asarray(loaded[i])
+								if g.dtype != a.dtype or not np.array_equal(g, a):
+									nz = int(np.flatnonzero(g != a)[0]) if len(g) == len(a) else -1
+									bad = (f'signature {i} (len {len(g)} vs {len(a)}, first difference at {nz})', g[max(nz, 0):max(nz, 0) + 4].tolist())
+									break
+							else:
+								whole = loaded[:]
+								if any(not np.array_equal(np.asarray(whole[i]), a) for i, a in enumerate(arrs)):
+									bad = ('slice [:]', None)
+								rev = loaded[[len(arrs) - 1 - i for i in range(len(arrs))]]
+								if bad is None and any(not np.array_equal(np.asarray(rev[len(arrs) - 1 - i]), a) for i, a in enumerate(arrs)):
+									bad = ('reversed index list', None)
+						if bad:
+							sh.violation('bigsig-differs', case, 'equal to what was written', str(bad)[:200])
+						else:
+							sh.nontrivial += 1
+							sh.count('bigsig_roundtrips')
+							sh.outcome([B, pname, container])
+					finally:
+						loaded.close()
+	sh.sample(dict(family='bigsig', comp=comp, bigs=bigs))
+	return sh
+
+
 def foreign_files(seed):
 	import gzip
 	import h5py
@@ -403,6 +465,7 @@ def finalize(agg, tier):
 	for c in ('roundtrips', 'compressed', 'string_ids', 'top_of_uint64_range', 'foreign_refused'):
 		agg.require(c, 20)
 	agg.require('many_roundtrips', 4)
+	agg.require('bigsig_roundtrips', 100)
 	for e in agg.extra:
 		if 'not_judged' in e:
 			agg.coverage_extra['recorded_not_judged'] = e['not_judged']
@@ -412,6 +475,8 @@ def replay(case, kind=None):
 	sh = Shard()
 	if case.get('many'):
 		return [v for v in t_many(case['comp'], 'quick').violations if v['case'].get('container') == case['container']][:1]
+	if case.get('bigsig'):
+		return [v for v in t_bigsig(case['comp'], 'thorough' if case['big'] > 262144 else 'quick').violations if v['case'] == case][:1]
 	if 'file' in case:
 		return [v for v in t_foreign(int(os.environ.get('VERIF_SEED') or 0)).violations if v['case'] == case]
 	v = {n: case[n] for n in DIMS}
@@ -426,5 +491,5 @@ MANIFEST = dict(
 	text='Default configuration plus every <=2-dimension deviation over k=1..32, prefix, collection shape, container, ID kind, metadata, compression '
 	     '(thorough: full product for 8 k values) is written by the real writer, re-opened by the real loader and compared with the in-memory original '
 	     'for kmerspec, IDs, metadata and every integer / slice / index-list / mask expression; a catalogue of foreign files must raise SignaturesFileError.',
-	note='values limited to range-boundary k-mer indices, <=3 signatures; h5py 3.16/HDF5 2.0 as installed.',
+	note='values limited to range-boundary k-mer indices, <=3 signatures (plus the many / bigsig families: thousands of signatures, single signatures up to 2^22 elements); h5py 3.16/HDF5 2.0 as installed.',
 )
